@@ -114,13 +114,30 @@ def write_table(path, table):
             csv.writer(f, lineterminator="\n").writerows(table)
 
 
+# how data files are named: what a file is called, where it lies and which characters its name holds say nothing about
+# its content ('folders': every file is called data.* in a folder of its own; the others: characters that mean
+# something to shells, glob patterns, URLs or option parsers)
+NAMINGS = {
+    "flat": "{kind}{k}{suffix}",
+    "folders": "{kind}{k}/data{suffix}",
+    "brackets": "{kind}{k}[1]{suffix}",
+    "copy": "{kind} {k} (copy){suffix}",
+    "glob": "{kind}{k}*?{suffix}",
+    "unicode": "d\xe4t\u20acn_{kind}{k}{suffix}",
+    "signs": "#{kind}{k};$x%&=+@{suffix}",
+    "nested-same": "same/{kind}{k}/same{suffix}",
+}
+NAMING_ORDER = sorted(NAMINGS)
+
+
 class Files(object):
     """All files of one worker, written lazily."""
 
-    def __init__(self):
+    def __init__(self, naming="flat"):
         self.dir = tempfile.mkdtemp(prefix="c18-")
         self._made = set()
         self._verdicts = {}
+        self.naming = naming
 
     def close(self):
         shutil.rmtree(self.dir, ignore_errors=True)
@@ -137,10 +154,11 @@ class Files(object):
         return path
 
     def data_path(self, kind, k, fmt):
-        name = "%s%d%s" % (kind, k, SUFFIX[fmt])
-        path = os.path.join(self.dir, name)
+        name = NAMINGS[self.naming].format(kind=kind, k=k, suffix=SUFFIX[fmt])
+        path = os.path.join(self.dir, *name.split("/"))
         if name not in self._made:
             self._made.add(name)
+            os.makedirs(os.path.dirname(path), exist_ok=True)
             if kind == "D":
                 os.mkdir(path)
             elif kind != "M":
@@ -285,7 +303,8 @@ def check_multiset(sub, files, variant, multiset, classes, only=None):
         expected, what = expectation(cid_state, shown)
         results = []
         for order in orders:
-            case = {"cid": [container, cid_state], "fmt": fmt, "files": list(order), "until": until}
+            case = {"cid": [container, cid_state], "fmt": fmt, "files": list(order), "until": until,
+                    "naming": files.naming}
             if only is not None and not only(case):
                 continue
             argv = ["cutplace"] + until_args(until) + [cid_path] + files.paths(order, fmt)
@@ -366,7 +385,8 @@ def units():
 
 
 def _shard(args):
-    index, count, todo = args
+    index, count, todo = args[:3]
+    seed = args[3] if len(args) > 3 else 0
     sub = Sub("enumeration")
     files = Files()
     classes = {}
@@ -375,6 +395,10 @@ def _shard(args):
         for number, (variant, multiset) in enumerate(todo):
             if number % count != index:
                 continue
+            # every second unit keeps the plain names, the others rotate through the naming schemes
+            turn = number // count + seed
+            files.naming = "flat" if turn % 2 == 0 else NAMING_ORDER[(turn // 2 + index) % len(NAMING_ORDER)]
+            classes["naming:" + files.naming] = classes.get("naming:" + files.naming, 0) + 1
             e, n = check_multiset(sub, files, variant, multiset, classes)
             evals += e
             nontrivial += n
@@ -427,7 +451,7 @@ def run(ctx):
     todo = units()
     # spread the expensive units (3 files, spreadsheet formats) evenly: stride through the list
     shards = max(1, ctx.workers * 2)
-    run_shards(ctx, _shard, [(i, shards, todo) for i in range(shards)], case_size)
+    run_shards(ctx, _shard, [(i, shards, todo, ctx.seed) for i in range(shards)], case_size)
     # subprocess sample, chosen by the seed
     every = []
     for variant in VARIANTS:
@@ -444,7 +468,7 @@ def run(ctx):
 
 
 def replay(sub, case):
-    files = Files()
+    files = Files(case.get("naming", "flat"))
     try:
         if "arguments" in case:
             check_broken_arguments(sub, files, case["arguments"], case["template"], case.get("via", "main"))
